@@ -1,6 +1,8 @@
 import FV.Model.Global
 import FV.Proofs.Geom
 import FV.Props.C07
+import FV.Proofs.Stog
+import FV.Model.Alloc
 /-
   C20 — results do not depend on what the process did before.
 
@@ -15,7 +17,7 @@ import FV.Props.C07
   fresh process.
 -/
 namespace FV.C20
-open FV FV.Rect
+open FV FV.Rect FV.Proc
 set_option linter.unusedSectionVars false
 set_option linter.unusedVariables false
 
@@ -23,9 +25,9 @@ variable {α : Type}
 
 /-! ### the tolerance state is sticky -/
 
-theorem ensureEps_some (sqrt : α → α) (e : Eps α) (d : α) : ensureEps sqrt (some e) d = some e := rfl
+theorem ensureEps_some (sqrt : α → α) (e : Proc.Eps α) (d : α) : ensureEps sqrt (some e) d = some e := rfl
 
-theorem runHistory_some (sqrt : α → α) (e : Eps α) (hist : List α) :
+theorem runHistory_some (sqrt : α → α) (e : Proc.Eps α) (hist : List α) :
     runHistory sqrt (some e) hist = some e := by
   induction hist with
   | nil => rfl
@@ -42,7 +44,7 @@ theorem runHistory_fresh (sqrt : α → α) (hist : List α) :
     exact runHistory_some sqrt _ ds
 
 /-- the tolerance a probe operation computes with, after an arbitrary history. -/
-def probeEps (sqrt : α → α) (hist : List α) (proposal : α) : Eps α :=
+def probeEps (sqrt : α → α) (hist : List α) (proposal : α) : Proc.Eps α :=
   match hist with
   | [] => ⟨proposal, sqrt proposal⟩
   | d :: _ => ⟨d, sqrt d⟩
@@ -56,7 +58,7 @@ theorem run_after_history {β : Type} (sqrt : α → α) (op : EpsOp α β) (his
 
 /-- no operation ever changes a defined tolerance (frame condition), so the state after the probe is the
     state before it — operations do not leave anything behind beyond the first definition. -/
-theorem run_state {β : Type} (sqrt : α → α) (op : EpsOp α β) (e : Eps α) :
+theorem run_state {β : Type} (sqrt : α → α) (op : EpsOp α β) (e : Proc.Eps α) :
     (op.run sqrt (some e)).1 = some e := by
   simp [EpsOp.run, ensureEps]
 
@@ -81,7 +83,7 @@ theorem probeEps_mem (sqrt : α → α) (hmono : ∀ x y, x ≤ y → sqrt x ≤
     in `[lo, hi]` it answers exactly as in a fresh process. -/
 theorem history_indep {β : Type} (sqrt : α → α) (hmono : ∀ x y, x ≤ y → sqrt x ≤ sqrt y)
     (op : EpsOp α β) (lo hi : α) (hp : lo ≤ op.proposal ∧ op.proposal ≤ hi)
-    (hrobust : ∀ e e' : Eps α, (lo ≤ e.dist ∧ e.dist ≤ hi ∧ sqrt lo ≤ e.area ∧ e.area ≤ sqrt hi) →
+    (hrobust : ∀ e e' : Proc.Eps α, (lo ≤ e.dist ∧ e.dist ≤ hi ∧ sqrt lo ≤ e.area ∧ e.area ≤ sqrt hi) →
         (lo ≤ e'.dist ∧ e'.dist ≤ hi ∧ sqrt lo ≤ e'.area ∧ e'.area ≤ sqrt hi) → op.body e = op.body e')
     (hist : List α) (hh : ∀ d ∈ hist, lo ≤ d ∧ d ≤ hi) :
     (op.run sqrt (runHistory sqrt none hist)).2 = (op.run sqrt none).2 := by
@@ -135,6 +137,105 @@ theorem overlap_history_indep (sqrt : α → α) (hmono : ∀ x y, x ≤ y → s
   history_indep sqrt hmono (overlapOp p a b) lo hi hp
     (fun e e' he he' => overlap_insensitive a b (sqrt lo) (sqrt hi) e.area e'.area ⟨he.2.2.1, he.2.2.2⟩ ⟨he'.2.2.1, he'.2.2.2⟩ hr)
     hist hh
+
+/-- a quantity `q` compared against a tolerance is *robust* for `[lo, hi]` when it is not strictly inside the band:
+    every tolerance of the interval then decides `q < ε` the same way. -/
+def OffBand (lo hi q : α) : Prop := q < lo ∨ hi ≤ q
+
+theorem offBand_lt_iff (lo hi q ε ε' : α) (h : lo ≤ ε ∧ ε ≤ hi) (h' : lo ≤ ε' ∧ ε' ≤ hi) (hq : OffBand lo hi q) :
+    q < ε ↔ q < ε' := by
+  rcases hq with c | c
+  · exact ⟨fun _ => lt_of_lt_of_le c h'.1, fun _ => lt_of_lt_of_le c h.1⟩
+  · exact ⟨fun d => absurd (lt_of_le_of_lt c d) (not_lt.mpr h.2), fun d => absurd (lt_of_le_of_lt c d) (not_lt.mpr h'.2)⟩
+
+/-- **orthogon recognition is insensitive to the tolerances** on robust inputs: `find_location` (hence every role
+    `create_stog` assigns, which are `find_location` answers) is the same for all distance tolerances in `[lo, hi]` and
+    area tolerances in `[alo, ahi]`, provided the overlap area, the four side distances and the four extent slacks of the
+    pair are off the respective bands. -/
+theorem findLocation_insensitive (t r : Rect α) (lo hi alo ahi ε ε' εA εA' : α)
+    (h : lo ≤ ε ∧ ε ≤ hi) (h' : lo ≤ ε' ∧ ε' ≤ hi) (ha : alo ≤ εA ∧ εA ≤ ahi) (ha' : alo ≤ εA' ∧ εA' ≤ ahi)
+    (hov : t.areaOverlap r ≤ alo ∨ ahi < t.areaOverlap r)
+    (hn : OffBand lo hi |t.ymax - r.ymin|) (hs : OffBand lo hi |t.ymin - r.ymax|)
+    (he : OffBand lo hi |t.xmax - r.xmin|) (hw : OffBand lo hi |t.xmin - r.xmax|)
+    (hx0 : OffBand lo hi (t.xmin - r.xmin)) (hx1 : OffBand lo hi (r.xmax - t.xmax))
+    (hy0 : OffBand lo hi (t.ymin - r.ymin)) (hy1 : OffBand lo hi (r.ymax - t.ymax)) :
+    Stog.findLocation ε εA t r = Stog.findLocation ε' εA' t r := by
+  rw [Stog.findLocation_eq, Stog.findLocation_eq]
+  have e0 : (εA < t.areaOverlap r) ↔ (εA' < t.areaOverlap r) := by
+    rcases hov with c | c
+    · exact ⟨fun d => absurd (lt_of_lt_of_le d c) (not_lt.mpr ha.1), fun d => absurd (lt_of_lt_of_le d c) (not_lt.mpr ha'.1)⟩
+    · exact ⟨fun _ => lt_of_le_of_lt ha'.2 c, fun _ => lt_of_le_of_lt ha.2 c⟩
+  have e1 := offBand_lt_iff lo hi _ ε ε' h h' hn
+  have e2 := offBand_lt_iff lo hi _ ε ε' h h' hs
+  have e3 := offBand_lt_iff lo hi _ ε ε' h h' he
+  have e4 := offBand_lt_iff lo hi _ ε ε' h h' hw
+  have f1 : (t.xmin - ε < r.xmin) ↔ (t.xmin - ε' < r.xmin) := by
+    have := offBand_lt_iff lo hi _ ε ε' h h' hx0
+    constructor <;> intro d <;> [have := this.1 (by linarith); have := this.2 (by linarith)] <;> linarith
+  have f2 : (r.xmax < t.xmax + ε) ↔ (r.xmax < t.xmax + ε') := by
+    have := offBand_lt_iff lo hi _ ε ε' h h' hx1
+    constructor <;> intro d <;> [have := this.1 (by linarith); have := this.2 (by linarith)] <;> linarith
+  have f3 : (t.ymin - ε < r.ymin) ↔ (t.ymin - ε' < r.ymin) := by
+    have := offBand_lt_iff lo hi _ ε ε' h h' hy0
+    constructor <;> intro d <;> [have := this.1 (by linarith); have := this.2 (by linarith)] <;> linarith
+  have f4 : (r.ymax < t.ymax + ε) ↔ (r.ymax < t.ymax + ε') := by
+    have := offBand_lt_iff lo hi _ ε ε' h h' hy1
+    constructor <;> intro d <;> [have := this.1 (by linarith); have := this.2 (by linarith)] <;> linarith
+  simp only [e0, e1, e2, e3, e4, f1, f2, f3, f4]
+
+/-- the same as an operation reading the process state, after any history. -/
+def findLocationOp (proposal : α) (t r : Rect α) : EpsOp α Loc := ⟨proposal, fun e => Stog.findLocation e.dist e.area t r⟩
+
+theorem findLocation_history_indep (sqrt : α → α) (hmono : ∀ x y, x ≤ y → sqrt x ≤ sqrt y) (p lo hi : α) (t r : Rect α)
+    (hp : lo ≤ p ∧ p ≤ hi)
+    (hov : t.areaOverlap r ≤ sqrt lo ∨ sqrt hi < t.areaOverlap r)
+    (hn : OffBand lo hi |t.ymax - r.ymin|) (hs : OffBand lo hi |t.ymin - r.ymax|)
+    (he : OffBand lo hi |t.xmax - r.xmin|) (hw : OffBand lo hi |t.xmin - r.xmax|)
+    (hx0 : OffBand lo hi (t.xmin - r.xmin)) (hx1 : OffBand lo hi (r.xmax - t.xmax))
+    (hy0 : OffBand lo hi (t.ymin - r.ymin)) (hy1 : OffBand lo hi (r.ymax - t.ymax))
+    (hist : List α) (hh : ∀ d ∈ hist, lo ≤ d ∧ d ≤ hi) :
+    ((findLocationOp p t r).run sqrt (runHistory sqrt none hist)).2 = ((findLocationOp p t r).run sqrt none).2 :=
+  history_indep sqrt hmono (findLocationOp p t r) lo hi hp
+    (fun e e' he' he'' => findLocation_insensitive t r lo hi (sqrt lo) (sqrt hi) e.dist e'.dist e.area e'.area
+      ⟨he'.1, he'.2.1⟩ ⟨he''.1, he''.2.1⟩ ⟨he'.2.2.1, he'.2.2.2⟩ ⟨he''.2.2.1, he''.2.2.2⟩ hov hn hs he hw hx0 hx1 hy0 hy1)
+    hist hh
+
+/-- **boundary gathering is insensitive to the tolerance** on robust inputs: the ε-deduplication of
+    `gather_boundaries` (which decides the Hanan grid of a die and the cut lines of `griddify`) keeps the same
+    coordinates for every tolerance of `[lo, hi]` when no two gathered coordinates differ by an amount inside the band. -/
+theorem uniqEps_insensitive (lo hi ε ε' : α) (h : lo ≤ ε ∧ ε ≤ hi) (h' : lo ≤ ε' ∧ ε' ≤ hi) (l : List α)
+    (hr : ∀ u ∈ l, ∀ v ∈ l, v - u ≤ lo ∨ hi < v - u) : FV.uniqEps ε l = FV.uniqEps ε' l := by
+  have key : ∀ (l acc : List α), (∀ u ∈ acc ++ l, ∀ v ∈ acc ++ l, v - u ≤ lo ∨ hi < v - u) →
+      FV.uniqEpsRev ε l acc = FV.uniqEpsRev ε' l acc := by
+    intro l
+    induction l with
+    | nil => intro acc _; rfl
+    | cons v vs ih =>
+      intro acc hacc
+      cases acc with
+      | nil =>
+        simp only [FV.uniqEpsRev]
+        exact ih [v] (by simpa using hacc)
+      | cons last acc =>
+        simp only [FV.uniqEpsRev]
+        have hb : (last + ε < v) ↔ (last + ε' < v) := by
+          have := hacc last (by simp) v (by simp)
+          rcases this with c | c
+          · constructor <;> intro d <;> exfalso <;> linarith [h.1, h'.1]
+          · constructor <;> intro _ <;> linarith [h.2, h'.2]
+        by_cases hc : last + ε < v
+        · have hc' := hb.1 hc
+          simp only [hc, hc', ↓reduceIte]
+          apply ih
+          intro u hu w hw
+          apply hacc <;> (simp only [List.mem_append, List.mem_cons] at *; tauto)
+        · have hc' : ¬ (last + ε' < v) := fun d => hc (hb.2 d)
+          simp only [hc, hc', ↓reduceIte]
+          apply ih
+          intro u hu w hw
+          apply hacc <;> (simp only [List.mem_append, List.mem_cons] at *; tauto)
+  unfold FV.uniqEps
+  rw [key l [] (by simpa using hr)]
 
 end ordered
 
